@@ -193,3 +193,22 @@ PROPS["C16"] = {
     "thorough": [rapid("spelling", "^TestPropSpelling$", 3000, shards=6), rapid("history", "^TestPropHistory$", 3000, shards=4),
                  rapid("concurrent", "^TestPropConcurrent$", 120, shards=14, race=True)],
 }
+
+PROPS["C19"] = {
+    "pkg": "c19",
+    "level": "exploration",
+    "rule": ("(iv) Pack (all option sets) and bundle builds on generated trees with hazards drawn from 15 families - in-tree and external self "
+             "loops, 2-cycles, directory cycles through external directories (to '.', '..', own name, back to the root), links to fifos, "
+             "sockets, /dev/null, /dev/zero, /proc/self/fd, 60-link chains, odd names - and rule files mixing degenerate lines (blank, "
+             "whitespace-only, '!', '/', '#', '**', '!/', '[', '\\\\', NUL, invalid UTF-8, 5000-char, random punctuation) run in a watched worker "
+             "subprocess (64MiB stack cap): a recovered panic, a worker death with go-slug frames, or silence for 12s with a go-slug frame in the "
+             "SIGQUIT dump is a violation; (ii) Unpack on hostile archives with byte mutations (checksums repaired), truncation, trailing "
+             "garbage, empty//NUL/huge-size entries, and raw fuzz bytes; (i) every address parser, printer and resolver on grammar, mutated "
+             "and fuzzed strings; (iii) OpenDir and all lookups on generated manifests. Non-trivial = the input reaches the code under test "
+             "(valid gzip+tar framing, a hazard or rule file present, a string accepted by url/regaddr pre-parsing, JSON that unmarshals); "
+             "distinct by case hash."),
+    "assumptions": ["documented panics (SourceAddr with an invalid sub-path, Must*, use of a closed builder) are not entry points", "a hang is declared only with a go-slug frame in the goroutine dump; otherwise the run is inconclusive"],
+    "quick": [rapid("tree", "^TestPropTree$", 500, shards=2, timeout=900), rapid("bytes", "^TestPropUnpackBytes$", 2000, shards=2)],
+    "thorough": [rapid("tree", "^TestPropTree$", 8000, shards=6, timeout=7000), rapid("bytes", "^TestPropUnpackBytes$", 40000, shards=6),
+                 fuzz("FuzzUnpackBytes", "120s")],
+}
